@@ -23,9 +23,14 @@ PROPS = {
                  "(released-operation sequence hash, fired-fault multiset)"),
         "real": ["storage.Copy/CopyPath/CopyReader/CopyReadObject/PutPath/ForWriteObject", "storagearchive.Tar/Untar/Zip/Unzip",
                  "bufcas.PutFileSetToBucket", "storage.MapReadWriteBucket", "storageos bucket incl. atomic writer (real directory on tmpfs)",
-                 "storagemem", "thread.Parallelize"],
+                 "storagemem", "thread.Parallelize", "bufmodulestore ModuleDataStore (dir, tar) and CommitStore puts",
+                 "bufconfig PutBufYAMLFile / PutBufLockFile / PutBufWorkYAMLFile / PutBufGenYAMLFile",
+                 "bufprotopluginos.ResponseWriter flushing plugin output into a directory, a .zip and a .jar",
+                 "the `buf export` command run in-process (root command, bufctl controller, bufworkspace, image build, storageos provider of its own)"],
         "stubbed": ["destination bucket wrapper / io.Writer that yields and injects put/write/short-write/close errors",
-                    "verifhook points inside storageos for short writes, close and rename failures below buf's own code"],
+                    "verifhook points inside storageos for short writes, close and rename failures below buf's own code; in 'raw' mode "
+                    "(destinations the code opens itself: buf export, plugin output archives) these points are themselves the scheduling and fault points",
+                    "injected write-side errors carry a tape-salted errno (none / ENOSPC / ENOENT / EACCES / EIO)"],
         "assumptions": COMMON_ASSUMPTIONS + [
             "an injected error on Put/Write/Close/Rename is what 'a write, close or rename fails' means; buf has no retry on these paths",
         ],
